@@ -251,6 +251,12 @@ def backwards_script(n, base):
     return {"lvl": "rec", "rb": 0, "steps": steps}
 
 
+def run_script(n, base, dt, t0=20000000):
+    """The same as one trace event (Twcc!RecRun): n consecutive numbers from `base` on a fresh recorder, arrival step dt
+    (all times stay below 10^9 us: TLC integers)."""
+    return {"lvl": "rec", "rb": 0, "steps": [{"a": "recrun", "w": base, "n": n, "t": t0, "dt": dt}, {"a": "build"}]}
+
+
 def icpt_script(rng, n):
     """Through SenderInterceptor: t is the pause in microseconds before the packet is read (real clock, 1 ms ticker)."""
     steps = []
@@ -404,6 +410,11 @@ def run(ctx):
     rs += [history_limit_script(rng, 300, 900)] if q else [
         history_limit_script(rng, 300, 900), history_limit_script(rng, 2500, 150), history_limit_script(rng, 6000, 70000)]
     run_chunks(ctx, rs, "T-random", 100, growth=True)
+    # full 2^15 histories as ONE trace event each (the lemma RecRun = iterated RecordStep is checked by MC_TwccRecRun): every
+    # delta two bytes (backwards / 70 ms apart: more than 65535 bytes if built as one packet), every delta one byte, wrap
+    vlib.model_check(ctx, "MC_TwccRecRun.tla", "MC_TwccRecRun.cfg", workers=2)
+    run_chunks(ctx, [run_script(32768, rng.choice([0, 65000]), -300), run_script(32768, 40000, -25000, 900000000),
+                     run_script(32768, 65535, 250), run_script(32767, 1, 8200000 // 32767)], "T-full-history", 4, growth=False)
     if not q:
         # one feedback for a full 2^15 history in which every delta needs two bytes (> 65535 bytes if built as one packet)
         run_chunks(ctx, [backwards_script(32768, rng.choice([0, 65000]))], "T-huge", 1, growth=True)
